@@ -91,7 +91,11 @@ def run(ck):
         tab, amb = (tabs['alpha_defDNA'], 'N') if kind == 'dna' else (tabs['alpha_redPROTEIN'], 'X')
         rd = reduce(tab, amb, dup)
         prem = all(not contained(reduce(tab, amb, s), rd) for s in set(seqs) if s != dup)
-        cases.append({'kind': kind, 'seqs': seqs, 'dup': dup, 'type': rng.choice(TYPES[kind]), 'pens': [gen.NG] * 3, 'threads': rng.choice([1, 1, 8]), 'premise': prem})
+        pens = [gen.NG] * 3
+        if k % 9 == 4:       # negative values other than -1 (the README writes the DNA defaults as -8 / -6): still "not set"
+            pens = [gen.fbits(-8.0), gen.fbits(-6.0), rng.choice([gen.NG, gen.fbits(-0.5)])]
+            ck.count('negative penalty arguments')
+        cases.append({'kind': kind, 'seqs': seqs, 'dup': dup, 'type': rng.choice(TYPES[kind]), 'pens': pens, 'threads': rng.choice([1, 1, 8]), 'premise': prem})
         ck.count('containment premise %s' % ('holds' if prem else 'fails (case only used for the correspondence)'))
         ck.count('n:%s' % ('2-9' if len(seqs) < 10 else '10-49' if len(seqs) < 50 else '50-99'))
     small = [c for c in cases if len(c['seqs']) <= 9][: (35 if quick else 250)]
